@@ -4,6 +4,7 @@
 mod cfm;
 mod chunkid;
 mod common;
+mod container;
 mod datetime;
 mod drd;
 mod icd;
@@ -25,6 +26,8 @@ fn main() {
     let args = Args::parse();
     match args.module.as_str() {
         "sweep" => sweep::run(&args),
+        "container" => container::run(&args),
+        "totalc" => container::run_total(&args),
         "summary" => summary::run(&args),
         "cfm" => cfm::run(&args),
         "rda" => rda::run(&args),
